@@ -37,6 +37,7 @@ def check(ctx: Ctx) -> None:
     r6(ctx)
     r7(ctx)
     r8_work(ctx)
+    r9_key_roundtrip(ctx)
 
 
 S3_WORK = {"read_file": ("boto.get_object",), "read_file_with_etag": ("boto.get_object",), "open_file": ("boto.get_object",),
@@ -123,6 +124,60 @@ def r8_work(ctx: Ctx, rid: str = "C20.R8") -> None:
                 ctx.ob(rid, lf, "listing keeps every entry", None, False, "no statement carries the listed objects into the returned list: "
                        "the listing is always empty - recovery finds no metadata file and the table is taken for uninitialised",
                        text=f"{ci.name}.list_files")
+
+
+def r9_key_roundtrip(ctx: Ctx, rid: str = "C20.R9") -> None:
+    ctx.rule(rid, "table-relative listings: what list_files returns for an object is the path that _get_s3_key maps back to that "
+             "object's key - decided by scenario evaluation (prefix 'tbl' and no prefix; path 'data/x.parquet'), no code is run", 2)
+    from .common import UNKNOWN, explore
+    s3 = ctx.prog.cls(SB + ".S3StorageBackend")
+    gk = s3.methods.get("_get_s3_key")
+    lf = s3.methods.get("list_files")
+    if gk is None or lf is None:
+        raise AnalysisError("_get_s3_key / list_files vanished from S3StorageBackend")
+    pname = next((p.name for p in gk.params if p.name != "self"), "path")
+    g = ctx.cfg(gk)
+    for label, prefix in (("with a table prefix", "tbl"), ("without a prefix", "")):
+        rel = "data/x.parquet"
+        env = {"self.prefix": prefix, pname: rel}
+        keys = set()
+        for nid, store, _asm in explore(ctx, gk, [g.entry], env, stop=[n.id for n in g.nodes if n.kind == "return"]):
+            n = g.nodes[nid]
+            if n.kind == "return" and n.ast is not None:
+                scen = dict(env)
+                scen.update({k: v for k, v in store.items() if isinstance(k, str)})
+                from .common import concrete_eval
+                keys.add(concrete_eval(ctx, gk, n.ast.value, scen, nid))  # type: ignore[union-attr]
+        want = (prefix + "/" + rel) if prefix else rel
+        ctx.ob(rid, gk, f"_get_s3_key {label}", None, keys == {want}, f"'{rel}' -> {sorted(map(repr, keys))} (expected '{want}')",
+               text=label)
+        # the listing side: an object with that key comes back as `rel`
+        got = set()
+        for f in [lf] + list(lf.nested.values()):
+            fg = ctx.cfg(f)
+            apps = [n for n in fg.calls() if isinstance(n.ast, ast.Call) and isinstance(n.ast.func, ast.Attribute) and n.ast.func.attr == "append"
+                    and any(fr.kind == "loop" for fr in n.frames)]
+            for a in apps:
+                inner = [fr.node for fr in a.frames if fr.kind == "loop"][-1]
+                lp = next(n for n in fg.nodes if n.kind == "loop" and n.ast is inner)
+                body = edge_target(fg, lp, "true")
+                tgt = lp.ast.target  # type: ignore[union-attr]
+                if body is None or not isinstance(tgt, ast.Name):
+                    continue
+                # the loop variable is the listed object: obj["Key"] is the key under study
+                scen0 = {"self.prefix": prefix, tgt.id: {"Key": want}}
+                for nid, store, _asm in explore(ctx, f, [body], scen0, stop=[a.id]):
+                    if nid != a.id:
+                        continue
+                    scen = dict(scen0)
+                    scen.update({k: v for k, v in store.items() if isinstance(k, str)})
+                    from .common import concrete_eval
+                    got.add(concrete_eval(ctx, f, a.ast.args[0], scen, nid))  # type: ignore[union-attr]
+        if got:
+            ctx.ob(rid, lf, f"list_files {label}", None, got == {rel}, f"key '{want}' is listed as {sorted(map(repr, got))} (expected '{rel}')",
+                   text=label)
+        else:
+            ctx.ob(rid, lf, f"list_files {label}", None, True, "listing not in the append-loop form (not evaluated)", nontrivial=False, text=label)
 
 
 def _sig(f: FunctionInfo) -> List[Tuple[str, str, str]]:
